@@ -86,6 +86,13 @@ def keys_e2e(case, comps):
 
 
 def run(ctx):
+    # g01 imports G16.Model: hold g16's lock for the whole run so that a C16 check (which regenerates and rebuilds
+    # g16) cannot interleave with the g01 build or the shard evaluation
+    with common.Lock("group-g16"):
+        _run(ctx)
+
+
+def _run(ctx):
     info, ob_failed = u.prepare(ctx, PROP_FILE, OWN_FILES)
     meta = u.run_harness(ctx, "c01", ob_failed)
     model_bad, prop_bad, res = ([], [], {})
